@@ -285,6 +285,7 @@ func runScript(c *fw.Ctx, idx int, r *fw.Rand) {
 		sc.deletePart()
 	}
 	for _, s := range sc.sigs {
+		c.Unit()
 		c.NonTrivial(s)
 	}
 	c.Sample(map[string]any{"config": cc.String(), "script": fw.Trunc(sc.script, 700)})
